@@ -6,15 +6,7 @@ cd "$(dirname "$0")"
 export CARGO_NET_OFFLINE=true
 mkdir -p .cache evidence
 # translators: regenerate the model parts derived from /repo's source
-python3 tools/rs2v_config.py || true
-python3 tools/rs2v_digit.py || true
-python3 tools/rs2v_glue.py || true
-python3 tools/rs2v_loops.py || true
-python3 tools/rs2v_div.py || true
-python3 tools/rs2v_endian.py || true
-python3 tools/rs2v_conv.py || true
-python3 tools/rs2v_parse.py || true
-python3 tools/rs2v_rand.py || true
+for t in tools/rs2v_*.py; do case $t in *_v1.py) ;; *) python3 $t >/dev/null 2>&1 || true;; esac; done
 ( cd coq && coq_makefile -f _CoqProject -o Makefile >/dev/null && timeout 7200 make -j16 >/dev/null 2>.cache-make.err || { tail -50 .cache-make.err; echo "coq build reported errors (checks will report per property)"; } ; rm -f .cache-make.err )
 for prof in dbgon dbgoff; do
   ( cd harness && CARGO_TARGET_DIR=../.cache/target-$prof RUSTFLAGS="--cfg bnum_verif -Awarnings" timeout 7200 cargo build --offline --quiet --profile $prof --bins ) &
